@@ -64,7 +64,7 @@ theorem piece_delim (p : Piece) (rest : Str) (hp : p.ok = true) : RestDelim (p.r
 /-- the token a piece denotes -/
 def pieceToken : Piece → Token
   | .item _ it => .charData it.val
-  | .group _ els _ => .list (els.map Prod.snd)
+  | .group _ els _ => .list (els.map fun p => p.2.val)
 
 theorem blanksOK_all {ws : Str} (h : blanksOK ws = true) : ws.all isBlank = true := by
   simp only [blanksOK, Bool.and_eq_true] at h; exact h.2
